@@ -4,6 +4,7 @@ from __future__ import annotations
 
 import json
 
+import examples as ex
 import sepcommon as sc
 from common import Outcome, seed, workdir
 
@@ -32,6 +33,8 @@ def run(tier: str) -> int:
         recs += r5["recs"]
         extra = {"generated": base["generated"] + extra["generated"] + r5["generated"],
                  "distinct": base["distinct"] + extra["distinct"] + r5["distinct"]}
+    exf = ex.sep_tables(wd)   # the repository's example catalogue (5-8 nodes), tables by SepFile.tla
+    recs += exf["recs"]
     stats, fails = sc.replay(wd, "sigma", recs, 3)
     for f in fails:
         key = json.dumps({"g": f["g"], "a": f["a"], "b": f["b"], "c": f["c"]}, sort_keys=True)
@@ -45,6 +48,7 @@ def run(tier: str) -> int:
         "transitions": sum(m["generated"] for m in mcs) + sum(g["generated"] for g in gens) + extra["generated"],
         "traces_validated_against_impl": stats.get("calls", 0),
         "graphs": len(recs),
+        "example_catalogue_graphs": exf["names"],
         "cyclic_graph_calls": stats.get("cyclic_calls", 0),
         "diagnostic_only_disagreements_with_SigmaSep_on_cyclic_graphs": stats.get("cyclic_diagnostic_disagreements", 0),
         "samples": [{"g": recs[7]["g"], "sig": recs[7]["sig"]}, {"g": recs[-1]["g"], "adj": recs[-1]["adj"]}],
